@@ -36,7 +36,7 @@ func genName(r *rand.Rand, pool []string) string {
 	}
 }
 
-var valuePool = []string{"", "v", "value", "<x>", "<x", "x>", "<", ">", "<<y>>", "0", "7", "-3", "+5", "007", "12a",
+var valuePool = []string{"a%20b", "100%", "%s%d", "", "v", "value", "<x>", "<x", "x>", "<", ">", "<<y>>", "0", "7", "-3", "+5", "007", "12a",
 	"9223372036854775807", "9223372036854775808", "-9223372036854775808", "-9223372036854775809", " lead", "trail ",
 	"a: b", "=?utf-8?q?x?=", "\t", "text/plain", "2020-01-02T03:04:05Z", "\xc3\xa9t\xc3\xa9", "\x00\x01"}
 
